@@ -228,7 +228,16 @@ func (s *StatsCtx) handlePutStatsConfig(w http.ResponseWriter, r *http.Request) 
 
 // handleStatsReset is the handler for the POST /control/stats_reset HTTP API.
 func (s *StatsCtx) handleStatsReset(w http.ResponseWriter, r *http.Request) {
-	err := s.clear()
+	var err error
+	func() {
+		// Don't let the hourly flush run while the statistics are being
+		// cleared, since it may put the unit that is being cleared into the new
+		// database.
+		s.confMu.Lock()
+		defer s.confMu.Unlock()
+
+		err = s.clear()
+	}()
 	if err != nil {
 		aghhttp.ErrorAndLog(
 			r.Context(),
